@@ -25,7 +25,7 @@ RULE = (
     "crosses alpha at k the estimate is k, and it always lies in 1..N; also with the real generator for a seed menu; (c) "
     "Audit.find_sample_size given a sample of manual records (per-assertion data tiled; contest = max over unconfirmed assertions); "
     "Assertion.find_sample_size for comparison/ONEAudit (error-free values with one- and two-vote overstatements every "
-    "floor(1/r) positions from 0) and polling (all tallies, interleaved), Contest/Audit.find_sample_size (= max over "
+    "floor(1/r) positions from 0; also Audit.find_sample_size for a ONEAudit contest with pooled batches before any card is examined) and polling (all tallies, interleaved), Contest/Audit.find_sample_size (= max over "
     "assertions) and raire.sample_estimator.sample_size; (d) interleave_values for all (a,b,c) in [0..6]^3: a permutation of "
     "the requested multiset.  Non-trivial = case whose estimate is strictly between 1 and N; distinct = distinct case"
 )
@@ -34,7 +34,7 @@ ASSUMPTIONS = [
     "for super-majority (assorter bound != 1) the documentation does not pin the 'one-vote' value; only plurality-type assertions are judged in (c)",
     "simulation estimates are judged only by the prefix-crossing clause and by range (the quantile convention is not part of the property)",
 ]
-REQUIRE_VAC = ["estimates_strictly_inside", "estimates_equal_N", "prefix_crossing_cases", "scripted_rng_runs", "polling_tallies", "interleave_cases", "contest_level_cases"]
+REQUIRE_VAC = ["estimates_strictly_inside", "estimates_equal_N", "prefix_crossing_cases", "scripted_rng_runs", "polling_tallies", "interleave_cases", "contest_level_cases", "oneaudit_audit_level_cases"]
 ALPHAS = [0.05, 0.2, 0.5]
 
 
@@ -182,6 +182,49 @@ def judge_comparison(m, N, k_win, r1, r2, alpha, audit_type):
     if asn.sample_size != got:
         out.append(("C16|find_sample_size|attribute", f"assertion.sample_size = {asn.sample_size}, returned {got}"))
     return out, got
+
+
+def judge_oneaudit_audit(m, N, k_win, pooled, r1, r2, alpha):
+    """Audit.find_sample_size for a ONEAudit contest before any card has been examined: the hypothetical population is
+    the error-free overstatement-assorter values of all cards (pooled cards compared with their batch mean), with
+    one-vote overstatements every floor(1/r1) positions from 0 and two-vote overstatements every floor(1/r2) positions
+    from 0 (a position carrying both counts as the two-vote one); the estimate is the first crossing on it"""
+    def fresh():
+        con, asn, audit, cvrs = comparison_contest(N, k_win, Audit.AUDIT_TYPE.ONEAUDIT, m, alpha)
+        for i in pooled:
+            cvrs[i].tally_pool, cvrs[i].pool = "P", True
+        audit.error_rate_1, audit.error_rate_2 = r1, r2
+        asn.assorter.set_tally_pool_means(cvr_list=cvrs, tally_pools=None, use_style=True)
+        asn.set_margin_from_cvrs(audit, cvrs)
+        return con, asn, audit, cvrs
+
+    with warnings.catch_warnings():
+        warnings.simplefilter("ignore")
+        try:
+            con, asn, audit, cvrs = fresh()
+            if not (asn.margin > 0):
+                return [], None
+            base, u_t = asn.mvrs_to_data(cvrs, cvrs, use_all=True)
+            v = asn.margin
+            pop = [float(b) for b in base]
+            if r1:
+                for i in range(0, N, math.floor(1 / r1)):
+                    pop[i] = 0.5 / (2 - v)
+            if r2:
+                for i in range(0, N, math.floor(1 / r2)):
+                    pop[i] = 0.0
+            con2, asn2, audit2, cvrs2 = fresh()
+            audit2.find_sample_size(contests={"con": con2}, cvrs=cvrs2)
+            got = con2.sample_size
+        except Exception as e:  # noqa
+            return [(f"C16|oneaudit-audit|exception|{type(e).__name__}", f"{type(e).__name__}: {str(e)[:80]}")], None
+        twin = NonnegMean(test=con.test, estim=con.estim, bet=con.bet, u=asn.test.u, N=N, t=1 / 2, g=con.g, **con.test_kwargs)
+        hist = twin.test(np.array(pop))[1]
+    want = first_crossing(hist, alpha, N)
+    if got != want:
+        return [("C16|oneaudit-audit|Audit.find_sample_size", f"ONEAudit, N={N}, {k_win} votes for the winner, cards {list(pooled)} pooled, rates ({r1},{r2}): documented population "
+                 f"{[round(p_, 3) for p_ in pop]} first crosses {alpha} at {want}, contest.sample_size {got}")], got
+    return [], got
 
 
 def judge_polling(m, N, n_win, n_lose, alpha):
@@ -462,6 +505,24 @@ def run_shard(sh, rec):
                             rec.outcome(("cmp", mi, N, k_win, r1, r2, alpha, at))
                         for key, what in v:
                             rec.violate(key, what, {"kind": "cmp", "m": mi, "N": N, "k_win": k_win, "r1": r1, "r2": r2, "alpha": alpha, "at": at})
+    elif kind == "oa":
+        _, mi, N = sh
+        m = METHODS[mi]
+        for k_win in range(N // 2 + 1, N + 1):
+            rec.state()
+            for pooled in ((), (0, 1), (N - 3, N - 2, N - 1), tuple(range(0, N, 2))):
+                for r1, r2 in itertools.product((0, 0.25, 0.3, 0.5), repeat=2):
+                    for alpha in (0.05, 0.5):
+                        v, got = judge_oneaudit_audit(m, N, k_win, pooled, r1, r2, alpha)
+                        rec.trans()
+                        rec.evals(2)
+                        rec.vac("oneaudit_audit_level_cases")
+                        rec.observe(("oa", mi, N, k_win, pooled, r1, r2, alpha, got))
+                        if got is not None and 1 < got < N:
+                            rec.vac("estimates_strictly_inside")
+                            rec.outcome(("oa", mi, N, k_win, pooled, r1, r2, alpha))
+                        for key, what in v:
+                            rec.violate(key, what, {"kind": "oa", "m": mi, "N": N, "k_win": k_win, "pooled": list(pooled), "r1": r1, "r2": r2, "alpha": alpha})
     elif kind == "poll":
         _, mi, N = sh
         m = METHODS[mi]
@@ -555,6 +616,8 @@ def explore(tier, seed):
             sh.append(("det", mi, N, (2,) if q else (2, 3), 3 if q else 4))
             sh.append(("cmp", mi, N))
             sh.append(("poll", mi, N))
+            if N >= 8:
+                sh.append(("oa", mi, N))
         for N in ([4, 5] if q else [4, 5, 6]):
             sh.append(("sim", mi, N, 4 if q else 5))
         for N in ([6] if q else [6, 8]):
@@ -572,6 +635,8 @@ def run_case(case):
         return judge_sim(METHODS[case["m"]], case["N"], case["x"], case["alpha"], tails, case["reps"], case["q"], case["seed"])[0]
     if k == "cmp":
         return judge_comparison(METHODS[case["m"]], case["N"], case["k_win"], case["r1"], case["r2"], case["alpha"], case["at"])[0]
+    if k == "oa":
+        return judge_oneaudit_audit(METHODS[case["m"]], case["N"], case["k_win"], tuple(case["pooled"]), case["r1"], case["r2"], case["alpha"])[0]
     if k == "poll":
         return judge_polling(METHODS[case["m"]], case["N"], case["n_win"], case["n_lose"], case["alpha"])[0]
     if k == "contest":
